@@ -607,9 +607,16 @@ def concrete_multi_refit(which):
     from copulas.univariate import GaussianUnivariate as GU
     m1 = GaussianMultivariate(distribution=GU)
     m1.fit(A)
+    m1.probability_density(A.iloc[:2])
+    m1.cumulative_distribution(A.iloc[:2])
+    m1.sample(2)
     m1.fit(B)
     m2 = GaussianMultivariate(distribution=GU)
     m2.fit(B)
+    qs = B.iloc[:3]
+    if not np.allclose(m1.probability_density(qs), m2.probability_density(qs), rtol=1e-9) or \
+            not np.allclose(m1.log_probability_density(qs), m2.log_probability_density(qs), rtol=1e-9):
+        return True, 'GaussianMultivariate: density after fit(A), queries, fit(B) differs from the density of a fresh fit(B)'
     if not np.allclose(m1.correlation.to_numpy(), m2.correlation.to_numpy()) or repr(_round(m1.to_dict())) != repr(_round(m2.to_dict())):
         return True, 'GaussianMultivariate: fit(A).fit(B) differs from fit(B)'
     return False, ''
